@@ -59,6 +59,54 @@ CHECKS = {
         design_ref="5 (C17)",
         note=E1_NOTE,
     ),
+    "C10": dict(
+        engine="E1 sched + E2 crash",
+        category="model_checking",
+        technique="explicit-state model checking of the real handlers with the real recovery sweep injected before every delivery of every order; plus crash-point enumeration comparing one vs. two sweeps",
+        text="A recovery sweep (run_recovery) injected in every reachable state of every delivery order, once or twice (also twice in a row), of every workload: outcome must stay within what is reachable without a sweep and no task may execute more often per arming than without a sweep. E2: at every crash image of 6 workloads, restart + one sweep vs. restart + two sweeps give the same outcome and execution counts.",
+        design_ref="5 (C10)",
+        note=E1_NOTE + " The sweep || handler interleaving half (E3) is part of C04/C11's engine and is not claimed here yet.",
+    ),
+    "C12": dict(
+        engine="E1 sched",
+        category="model_checking",
+        technique="explicit-state model checking of the real handlers with the event store in the same database image; the replay fold is part of the state key; prefix and snapshot equalities checked exhaustively at every quiescent state",
+        text="All delivery orders (+ injected cancel) of 15 workloads covering success, failure, raise, continue-on-failure, skip, poll, transient, jump loops, OR split, synthetic stages: at every quiescent state EventReplayer.rebuild_workflow_state equals the stored workflow status and the status of every stage/task that went through the regular start/complete/fail/skip/cancel steps; for EVERY sequence number as_of replay equals replay of the truncated log; for EVERY snapshot position p and every s>=p snapshot+tail equals full replay.",
+        design_ref="5 (C12)",
+        note=E1_NOTE + " Stages force-marked by a jump, tasks bulk-cancelled by CancelStage and SKIPPED tasks are outside the claim (property wording / documented design). Wall-clock fields are not compared.",
+    ),
+    "C13": dict(
+        engine="E2 crash + statement fault injector",
+        category="fault_enumeration",
+        technique="exhaustive crash-point enumeration (image after every commit) plus exhaustive statement-level fault injection through the real connection's execute(), event store in the same database",
+        text="Every commit image of 13 workload runs, and an exception (sqlite 'database is locked' / RuntimeError) raised before every single statement of every RunTask/CompleteTask/CompleteStage step (every step in thorough): no completion event without its committed completion, no regularly committed completion without its event, the synchronous subscriber never saw an event that is not durable, sequences unique and increasing, no transaction left open.",
+        design_ref="5 (C13)",
+        note="Trusted: SQLite atomic commit, CPython; one fault per run; FIFO (+LIFO) baseline.",
+    ),
+    "C14": dict(
+        engine="E1 sched",
+        category="model_checking",
+        technique="explicit-state model checking of the real handlers over every number of consecutive transient failures 0..max_attempts+2, all delivery orders",
+        text="k = 0..12 consecutive TransientErrors x {with, without context_update} x task position 1-3 of 3 with a parallel sibling stage x all delivery orders (+ lost ack / early delivery / sweep in thorough), plus polling tasks: attempt n sees the progress saved by attempt n-1, executions <= max_attempts (10), beyond the limit task/stage/workflow end TERMINAL, below it they succeed.",
+        design_ref="5 (C14)",
+        note=E1_NOTE + " max_stage_wait_retries is 20 here so the engine's unrelated 1-hour give-up does not race the task's backoff.",
+    ),
+    "C15": dict(
+        engine="E1 sched",
+        category="model_checking",
+        technique="explicit-state model checking of the real handlers over loop shapes x requested iterations x max-jumps settings, all delivery orders; frontier emptied = termination",
+        text="Self loop, 2-4 stage cycles, loop with side branch and fan-in, forward jump over a diamond x requested iterations 0..limit+2 x _max_jumps in {0,1,2,3,default 10} (workflow- and stage-level) x all delivery orders (+lost ack / sweep in thorough): jumps performed = min(requested, limit); at the limit source TERMINAL and workflow failed; loop body runs once per iteration, everything else once (reference re-arm set computed independently); bypassed stages SKIPPED and never run; every exploration reaches a fixpoint.",
+        design_ref="5 (C15)",
+        note=E1_NOTE,
+    ),
+    "C16": dict(
+        engine="E1 sched + E5 enum",
+        category="model_checking",
+        technique="explicit-state model checking of the real handlers: every task execution of every delivery order compared with an independent reference merge of the ancestors' durable outputs; exhaustive permutation enumeration for reducers",
+        text="Every DAG shape up to 4 stages + chains/diamonds/fans/loops with overlapping scalar and list keys and own-context overrides, all delivery orders: what each task execution saw equals the reference merge (nearest path-ordered ancestor wins, own value wins, lists accumulate, no non-ancestor key) of the outputs durable in the pre-state. Reducers: every permutation of 2-3 (4 in thorough) branch outputs over a value alphabet with duplicates, and end to end through a 3-branch fan under every completion order.",
+        design_ref="5 (C16)",
+        note=E1_NOTE + " Only path-ordered keys are asserted (the ancestor merge orders unrelated branches by set iteration).",
+    ),
 }
 
 NOT_YET = {
